@@ -201,18 +201,25 @@ func appendEvents(path string, events []Event) error {
 		return err
 	}
 	defer file.Close()
+	// All lines of one command go out in a single write(2), so a process that
+	// dies between two system calls leaves either none or all of its events.
+	var batch []byte
 	for _, event := range events {
 		data, err := json.Marshal(event)
 		if err != nil {
 			return err
 		}
-		line := append(data, '\n')
-		verifPoint("append.before", path, string(line))
-		if err := writeAll(file, line); err != nil {
-			return err
-		}
-		verifPoint("append.after", path, string(line))
+		batch = append(batch, data...)
+		batch = append(batch, '\n')
 	}
+	if len(batch) == 0 {
+		return nil
+	}
+	verifPoint("append.before", path, string(batch))
+	if err := writeAll(file, batch); err != nil {
+		return err
+	}
+	verifPoint("append.after", path, string(batch))
 	return nil
 }
 
